@@ -176,6 +176,11 @@ func (s *SequencerSyncer) syncRange(
 			Slot:        int64(slot),
 		})
 	})
+	if err != nil {
+		// Do not carry on with the next range: its transaction would move the sync position past
+		// the events of this range, which have not been stored.
+		return errors.Wrap(err, "failed to store transaction submitted events and sync status")
+	}
 	log.Info().
 		Uint64("start-block", start).
 		Uint64("end-block", end).
